@@ -29,7 +29,8 @@ def step12(step):
 class Recorder:
     """Context manager recording SiftLoopTrace events for every get_next_imf call."""
 
-    def __init__(self, emd, keep_arrays=False):
+    def __init__(self, emd, keep_arrays=False, keep_iterates=False):
+        self.keep_iter = keep_iterates
         self.sift = emd.sift
         self.support = emd.support
         self.traces = []          # finished traces (lists of events)
@@ -74,6 +75,8 @@ class Recorder:
         except BaseException as e:
             c['ev'].append({'e': 'Raise', 'type': type(e).__name__})
             meta['raised'] = type(e).__name__
+            if self.keep_iter:
+                meta['iterates'] = c.get('iterates', [])
             self._finish(c, meta)
             self.cur = outer
             raise
@@ -91,6 +94,8 @@ class Recorder:
         if self.keep:
             meta['ret'] = r2.copy()
             meta['X'] = c['X']
+        if self.keep_iter:
+            meta['iterates'] = c.get('iterates', [])
         self._finish(c, meta)
         self.cur = outer
         return ret, flag
@@ -113,6 +118,8 @@ class Recorder:
             c['k'] += 1
             c['prev_p'], c['prev_avg'] = c['p'], c['avg']
             c['p'] = np.array(X, copy=True)
+            if self.keep_iter:
+                c.setdefault('iterates', []).append(c['p'])
             c['avg'] = None
             c['ev'].append({'e': 'Top', 'k': c['k']})
             out = self.orig['interp_envelope'](X, *a, **k)
@@ -565,3 +572,40 @@ class OptionTrace:
             for line in open(os.path.join(self.dir, f)):
                 ev.append(_json.loads(line))
         return ev
+
+
+class InlinePool:
+    """A pool stand-in that runs every job in the calling process (so that recorders installed there see them)."""
+    def __init__(self, processes=None, *a, **k):
+        pass
+
+    def starmap(self, fn, iterable, chunksize=None):
+        return [fn(*a) for a in iterable]
+
+    def map(self, fn, iterable, chunksize=None):
+        return [fn(a) for a in iterable]
+
+    def close(self):
+        pass
+    terminate = join = close
+
+    def __enter__(self):
+        return self
+
+    def __exit__(self, *a):
+        pass
+
+
+class UseInlinePool:
+    def __init__(self, emd):
+        self.sift = emd.sift
+
+    def __enter__(self):
+        self.orig = self.sift.mp
+        shim = _MpShim()
+        shim.Pool = InlinePool
+        self.sift.mp = shim
+        return self
+
+    def __exit__(self, *a):
+        self.sift.mp = self.orig
